@@ -243,7 +243,7 @@ claim('C19',
       'DivmodRounded AS SHIPPED (d = b // 2 if b > 0 else (b + 1) // 2, /repo HEAD since fix cdbbb74; Props/C19Shipped.lean): ZeroDivisionError exactly for b = 0 and no other exception, total for b != 0, r = a - q*b, exact remainder range -b <= 2r < b for b > 0 and b < 2r <= -b for b < 0 (odd or even), hence |2r| <= |b|, q a nearest integer, ties towards +infinity (every integer at least as close is <= q), closed form q = (2a + b) // (2b) = floor(a/b + 1/2) for every b != 0 (round half up, not Python round-half-even), the characterisation (q, r) is the result IFF identity + range, exact division, every power of two incl. 1 (DivmodRounded(a, 1) = (a, 0)), and the two chained calls of CheckContinuedFraction give N = a*x^2 + b*x + c with balanced digits. HISTORICAL (D16, fixed by cdbbb74): before the fix d = (b + 1) // 2 made the docstring claim false for odd b > 0 (DivmodRounded(1,3) was (1,-2)): divmodRounded_round_fails and 10 further theorems about the pre-fix function are kept as that refutation; shipped = pre-fix for even b and for b < 0; '
       'Sieve(n) = the increasing list of primes below n. '
       'linalg_util: upper_triangular_solve returns x with (upper triangle of a) x = b, None iff a zero on the diagonal, shape errors as coded; every step of echelon_form (elimination with non-zero pivot, row move, exact division) preserves the solution set; solve_right AS SHIPPED (zero-pivot move a.insert(nrows - 1, a.pop(i)), /repo HEAD since fix 275bdf4) returns the unique solution of any consistent system whenever it returns a vector, under the hypothesis that every //= was exact (Bareiss exactness is a hypothesis, monitored at run time). HISTORICAL (D7, fixed by 275bdf4): a kernel-checked 5x4 counter-example for the pre-fix row move (solveRight_pinned_d7, solveRight_pinned_d7_wrong). '
-      'lattice_suite / util / small_roots: PseudoAverage picks the first minimiser of the stated variance difference (exact ring identity for every integer n), which FOR n > 0 is the global minimum over all 2^m shift selections, result in [0,n) for n > 0; each Bias summand is, FOR n > 0, the distance to the nearest multiple of n and 0 <= 2t/n <= len. Outside n > 0 (Props/C19Shipped.lean, run against the real code): n = 0 raises ZeroDivisionError in both functions for every input (pseudoAverage_n_zero, bias_n_zero; the empty list also raises for every n; totality iff-statements pseudoAverage_total_iff, bias_total_iff); for n < 0 PseudoAverage returns a value in (n, 0] and its loop selects a prefix shift of MAXIMAL variance (pseudoAverage_range_neg, pseudoAverage_neg_max_variance), every Bias summand lies in [n, n/2] and 2t/n in [len, 2 len], so the p-value is 1.0 (bias_term_neg, bias_normalized_range_neg); UniformSumCdf\'s running binomial is C(n,k) and its exact value is the Irwin-Hall sum (n <= 36), branch structure incl. reflection; CombinedPValue decision logic; small-root guards AS SHIPPED (abs(y) > 1 and n % y == 0, /repo HEAD since fix 02ff5e0): for every polynomial, modulus n > 0 and EVERY candidate list (every LLL / factorisation / solve_right answer) a returned candidate is one of the candidates and a true root modulo a proper divisor d of n, 1 < d < n (uni_tail_repaired_true_root, guard_multi_repaired_true_root; C19Shipped.guard_uni_sound, uni_tail_sound, guard_multi_sound, guard_uni_rejects_unit); multivariate_modn: a returned tuple is a root modulo n. HISTORICAL (D9, fixed by 02ff5e0): the pre-fix guard y != 0 accepted f(r) = +-1 (guard_uni_fails and 6 further theorems about the pre-fix guard are kept as that refutation). '
+      'lattice_suite / util / small_roots: PseudoAverage picks the first minimiser of the stated variance difference (exact ring identity for every integer n), which FOR n > 0 is the global minimum over all 2^m shift selections, result in [0,n) for n > 0; each Bias summand is, FOR n > 0, the distance to the nearest multiple of n and 0 <= 2t/n <= len. Outside n > 0 (Props/C19Shipped.lean, run against the real code): n = 0 raises ZeroDivisionError in both functions for every input (pseudoAverage_n_zero, bias_n_zero; the empty list also raises for every n; totality iff-statements pseudoAverage_total_iff, bias_total_iff); for n < 0 PseudoAverage returns a value in (n, 0] and its loop selects a prefix shift of MAXIMAL variance (pseudoAverage_range_neg, pseudoAverage_neg_max_variance), every Bias summand lies in [n, n/2] and 2t/n in [len, 2 len], so for a non-empty list the p-value is 1.0 (bias_term_neg, bias_normalized_range_neg); UniformSumCdf\'s running binomial is C(n,k) and its exact value is the Irwin-Hall sum (n <= 36), branch structure incl. reflection; CombinedPValue decision logic; small-root guards AS SHIPPED (abs(y) > 1 and n % y == 0, /repo HEAD since fix 02ff5e0): for every polynomial, modulus n > 0 and EVERY candidate list (every LLL / factorisation / solve_right answer) a returned candidate is one of the candidates and a true root modulo a proper divisor d of n, 1 < d < n (uni_tail_repaired_true_root, guard_multi_repaired_true_root; C19Shipped.guard_uni_sound, uni_tail_sound, guard_multi_sound, guard_uni_rejects_unit); multivariate_modn: a returned tuple is a root modulo n. HISTORICAL (D9, fixed by 02ff5e0): the pre-fix guard y != 0 accepted f(r) = +-1 (guard_uni_fails and 6 further theorems about the pre-fix guard are kept as that refutation). '
       'Model tied to /repo by differential correspondence: exhaustive n < 4096, k <= 12 for the 2-adic routines, 1..4096-bit random values with k up to 2050, Fibonacci worst cases up to 4200 bits, all |a|,|b| <= 60 for DivmodRounded, Sieve for n <= 300 and up to 2^20, integer matrices up to 8x5 incl. planted zero rows/pivots/dependent rows, float results of UniformSumCdf/CombinedPValue/Bias within 1e-9 of the exact model value (mpmath), planted-root polynomials with recorded and adversarial LLL answers (~325k inputs per quick run); DivmodRounded, PseudoAverage (n <= 0) and Bias (n <= 0) predicates are evaluated on the implementation for EVERY generated case, incl. the exact tie rule. '
       'FIND THE PLANTED ROOT (oracle/search only, no theorem - LLL is not modelled): gated by measurement. Inside the region PLANTED_ROOT_GATE of harness/corr/c19_misc.py (univariate_modp, k in {2,3}: ub <= floor((k-1)*bits/(2k-1)) - 2; multivariate_modp bivariate: m=3 and u1+u2 <= floor(3*bits/16) - 3, or m=4 and u1+u2 <= floor(bits/4) - 3; multivariate_modn m=1: u1+u2 <= floor(2*bits/3) - 10; balanced unknowns, 64 <= bits <= 1024 resp. 256) the real finders recovered the planted root in 2000 of 2000 measured instances of every quick-tier family and 500 of 500 of every thorough-tier family, and a miss there is reported as a failing input; outside the region (margin 0/1 bit, or beyond the lattice bound) the counts in planted_root_found are statistics only. multivariate_modp with m = 2 never finds a planted root (0 of 1500, any bound: the 6x5 linearised system is inconsistent) and is not used as a planted-root family. '
       'NOT claimed: that the small-root finders find the planted root outside the measured region or for other polynomial shapes (depends on LLL), exactness of the fraction-free divisions (hypothesis), UniformSumCdf for n > 36 being the Irwin-Hall CDF (it is the documented normal approximation, within the 1e-3 the repo\'s test states), validity of any p-value.',
@@ -384,11 +384,11 @@ claim('C17',
 claim('C18',
       'Lean theorems (Props/C18.lean and the files it builds on): none of the per-key RSA checks raises for ANY modulus, parameter and well-formed oracle answer (CheckFermat, CheckHighAndLowBitsEqual — the internal ArithmeticError and the '
       'None % 2 TypeError are unreachable —, CheckContinuedFractions, CheckBitPatterns, CheckPermutedBitPatterns, CheckSmallUpperDifferences, CheckUnseededRand); BatchGCD / CheckGCD / CheckGCDN1 never raise on positive moduli incl. the empty batch '
-      '(after fix D1); the bookkeeping layer is total on fresh artefacts (C16); EC Add / Double / Subtract never raise for any integer coordinates (C11 add_double_total, after fix D3), EC keys (Props/C18Ec.lean, review finding F2): for ANY natural-number coordinates (0, p, p+x, 2^600, off-curve, (0,0), keys equal mod p), ANY content of the cached _table, any ExtendedBatchDL bound and max_diff, any mixture of curve ids, '
-      'CheckValidECKey, CheckWeakCurve, CheckWeakECPrivateKey, CheckECKeySmallDifference and CheckAllEC return, with an entry exactly for the keys on known curves (weakECPrivateKey_total_any, smallDifference_total_any, checkAllEC_total_any; hypotheses: one _table state per curve object, float sqrt oracles >= 1; '
+      '(after fix D1); the bookkeeping layer is total on fresh artefacts (C16); EC Add / Double / Subtract never raise for any integer coordinates (C11 add_double_total, after fix D3), EC keys (Props/C18Ec.lean, review finding F2): for ANY natural-number coordinates (0, p, p+x, 2^600, off-curve, (0,0), keys equal mod p), ANY content of the cached _table, any ExtendedBatchDL bound >= 1 and any max_diff below 2^1024 (beyond it the real int(math.sqrt(.)) raises OverflowError: the float oracle has no value), any mixture of curve ids, '
+      'CheckValidECKey, CheckWeakCurve, CheckWeakECPrivateKey, CheckECKeySmallDifference and CheckAllEC return — CheckValidECKey with an entry for every key, the others with an entry exactly for the keys on known curves (weakECPrivateKey_total_any, smallDifference_total_any, checkAllEC_total_any; hypotheses: one _table state per curve object, float sqrt oracles >= 1 incl. those of the inner CheckAllEC of CheckIssuerKey, correct _cache contents (FactoryOK: _cache[k] = k*G — any _table is allowed, not any _cache), well-formed LCG metadata (MetaOk); '
       'CURVE_FACTORY validity incl. field primality is proved). EcCurve.Multiply raises (ValueError) exactly for scalar 2, y a non-zero multiple of p and 3x^2+a = 0 mod p (multiply_raises_iff, e.g. Multiply((1,p),2) on secp256r1); no check reaches it (ext_inverse_ne_two). '
       'ECDSA: with the solver ANSWERS as oracles the check layer never raises when gcd(s,n) = 1, for any r, hash, issuer key (sig_checks_total; CheckAllECDSASigs incl. CheckIssuerKey on invalid / unreduced issuer keys: checkAllECDSASigs_total_any); COMPOSED with the solver models (HiddenNumberProblem, ...ForCurve, Cr50U2fGuesses) '
-      'the checks and the entry point never raise for r, s in [1, n-1], any hash length, any issuer key (sig_checks_solver_total, checkAllECDSASigs_solver_total; remaining oracles: lll.reduce output with rows of length >= 2, one float, set orders); the Cr50 sanity raise is unreachable (C08). '
+      'the checks and the entry point never raise for r, s in [1, n-1], any hash length, any issuer key (sig_checks_solver_total, checkAllECDSASigs_solver_total — the run takes the solver answers from the oracle and every recorded solver call is then shown to return in the solver model; sufficient for totality because the check layer is total for EVERY answer; remaining oracles: lll.reduce output with rows of length >= 2, one float, set orders); the Cr50 sanity raise is unreachable (C08). '
       'Outside the domain, characterised: r = 0 mod n makes Cr50U2fGuesses raise ZeroDivisionError (cr50_solver_raises); Characterised, outside the property\'s domain: s = 0 (mod n) makes the six BiasedBaseCheck checks raise ZeroDivisionError; moduli under 64 bits make CheckKeypairDenylist raise. '
       'Every run pushes degenerate well-formed batches (sizes 0,1,2,24; prime/even/square/power-of-two/odd-length moduli with any exponent; every curve id incl. unknown and binary-field; coordinates 0, p, p+x, huge, off-curve, y = 0; duplicates; '
       'empty and 64-byte hashes; invalid issuer keys) through every real check (the real CheckAll* entry points in the thorough tier) and reports any exception with the batch as replay.',
@@ -553,15 +553,15 @@ CATEGORY['C07'] = 'other'
 _add('C13', 'FULL-STRENGTH HISTORY FORM (Props/C13History.lean, 11 theorems; the statements of Props/C13.lean speak of "the recorded list", which a Run that forgets earlier p-values would also satisfy — review finding F6): after any history of runs of a new TestStructure the list recorded under a name IS every p-value the runs returned under that name, in order (pvalues_are_history), '
             'and a sub-test is FAILED iff CombinedPValue of ALL p-values it returned so far < fail level, PASSED iff not failed and CombinedPValue([repeat]*k) < that combination, UNDECIDED otherwise (state_rule, failed_iff_history, failed_rule; a name nothing was returned under has no state). finished after a run that returned a list iff none of the decisions made after each item of that list '
             '(for the p-values of the item\'s name returned so far) was UNDECIDED and runs >= min_repetitions (finished_rule, no assumption on names); for results with pairwise different names — true of every registered test by inspection, not proved — this is "no sub-test of the last result UNDECIDED" (finished_rule_distinct_names); with a name repeated inside one result the real code asks for another repetition although the final state is PASSED (reproduced; conservative). '
-            'Each structure of TestSource is the history of its own test\'s outcomes in exactly the rounds in which it was unfinished, and TestSource / TestBitString return True iff some sub-test\'s returned p-values combine below the fail level (testSource_history, testBitString_history). A kernel-checked example shows a Run that forgets earlier p-values satisfies C13.state_rule but violates these. '
-            'Sentences 1-2 of C13: NOT proved, NOT modelled; search only (thorough tier and ./check C13 --search): the real TestSource restricted to the documented test on trunclcg32/64/128, lehmer128, lehmer128/16, java, mwc64/128/256 (FindBias, 2^16 bits), xorshift128+, xorwow (LargeBinaryMatrixRank 2^18), xorshift* (LargeBinaryMatrixRank 2^23), xorshift128+ (LinearComplexityScatter 2^22) must return True and '
+            'WHEN TestSource returns (the model loop is fuelled; termination is not claimed), each structure is the history of its own test\'s outcomes in exactly the rounds in which it was unfinished, and TestSource / TestBitString return True iff some sub-test\'s returned p-values combine below the fail level (testSource_history, testBitString_history). A kernel-checked example shows a Run that forgets earlier p-values satisfies C13.state_rule but violates these. '
+            'Sentences 1-2 of C13: NOT proved, NOT modelled; search only (thorough tier: one seed per weak generator and shake128; ./check C13 --search --tier thorough: five seeds per pair and also pcg64, philox): the real TestSource restricted to the documented test on trunclcg32/64/128, lehmer128, lehmer128/16, java, mwc64/128/256 (FindBias, 2^16 bits), xorshift128+, xorwow (LargeBinaryMatrixRank 2^18), xorshift* (LargeBinaryMatrixRank 2^23), xorshift128+ (LinearComplexityScatter 2^22) must return True and '
             'TestBitString on 2^20 bits of shake128 (pcg64, philox) must return False, for seeds drawn from VERIF_SEED; a miss is reported with the seed as failing input; nothing follows for other seeds or sizes.')
 _add('C16', 'PRE-ANNOTATED artefacts (Props/C16Merge.lean, 12 theorems; review finding F15): for ANY initial test_info (stale positive/negative entries of the same checks, foreign names, duplicate names, any order/weak flag/version), every list of checks with pairwise different names, every verdict oracle, after _CheckArtifacts / CheckAllRSA / CheckAllEC / CheckAllECDSASigs returned: every check that applies to the artefact has its entry = merge(old first entry of that name if any, this run\'s test_result) = (name, old.result OR new.result, max severity), '
             'exactly one such entry unless the artefact came with duplicates (count = max 1 old; later duplicates untouched); entries of checks that do not apply and of every other name are untouched; names = old names in old order then the missing applicable check names in run order; weak = old weak OR some applicable check positive in this run (never cleared); paranoid_lib_version kept if non-empty (a re-run does NOT refresh it), else the library version iff some check applied '
             '(preannotated_entries, registry_preannotated, checkAllRSA_preannotated / checkAllEC_preannotated / checkAllECDSASigs_preannotated). ./check C16 runs the real entry points twice on artefacts carrying each class of stale annotation and evaluates this clause on the protobufs (merge_pred, from the spied SetTestResult arguments) on every call.')
 
 # ---- second round after the independent review (findings F2 F4 F5 F7 F8 F10 F12 F13 F14 F16)
-_add('C14', 'Props/C14Wrapper.lean (17 theorems) closes the wrapper glue: int.to_bytes / from_bytes round trip and bit order for ALL lengths; wrapper_glue (the Python wrapper executed statement by statement over the word-level C++ model = Model/BM.lean\'s linearComplexity on EVERY (s, length), errors included); wrapper_spec (ValueError / OverflowError / TypeError / -1 / shortest LFSR); '
+_add('C14', 'Props/C14Wrapper.lean (17 theorems) closes the wrapper glue: int.to_bytes / from_bytes round trip and bit order for ALL lengths; wrapper_glue (the Python wrapper executed statement by statement over the word-level C++ MODEL, whose ints are unbounded, = Model/BM.lean\'s linearComplexity on every (s, length), errors included; about the real C++ only within CppSizeOk — for 2^30 < length < 2^31 the C++ computes 2*lfsr_len in a signed int); wrapper_spec (ValueError / OverflowError / TypeError / -1 / shortest LFSR); '
             'linearComplexity_is_shortest_lfsr (explicit hypothesis CppSizeOk: the Python-level LinearComplexity(s, length) through to_bytes, the pybind int and either C++ variant = shortest-LFSR length of s_0..s_{length-1}, bit i of s = s_i, the order nist_suite.LinearComplexity hands over its blocks: nist_block_bits, nist_block_linear_complexity); int_quantities_fit; wrapper_enforces_size_limits. '
             'Correspondence: ops bm.to_bytes, bm.wrapper_cpp (both variants) against the real to_bytes / LinearComplexity incl. the OverflowError / ValueError cases.')
 _add('C20', 'TOTAL-correctness form (Props/C20Total.lean, 19 theorems; review finding F14): decidable entryOk on the constructor parameters (TruncLcgRand k >= 1; Mwc b = 256^j, j >= 1; Lehmer bits a positive multiple of 8 and mod > 0; SubsetSum bits a positive multiple of 8 and k >= 1); entry_total: entryOk => constructor and RandomBits(n, seed) RETURN r for every n >= 0 and seed, with r < 2^n '
@@ -576,7 +576,7 @@ _add('C02', 'Props/C02Cert.lean: primality of the nine field moduli and group or
 _add('C10', 'Props/C10Cert.lean, Props/C10Any.lean: curve_factory_hyp_certified / curve_factory_orders_prime (no primality hypothesis left); checkWeakECPrivateKey_spec_priv (keys with a private key, F10); wkHyp_named_nonfresh / sdHyp_named_nonfresh (non-vacuity on the real factory with a non-fresh secp256r1 table evaluated by the kernel); checkWeakECPrivateKey_every_batch, batchDL_every_list (the guarantee for a key does not depend on its neighbours).')
 _add('C16', 'Props/C16EcAllCert.lean, Props/C16RsaAllNV.lean: the end-to-end EC / ECDSA theorems no longer take FieldPrimes nor bound = 2^32 (totality for every ExtendedBatchDL bound: the bound enters only through the float int(sqrt(bound*len)) >= 1, i.e. bound >= 1 — covers the quick tier\'s 2^16); non-vacuity: sigWF_inhabited (two secp256r1 signatures of one issuer + an unknown curve), a kernel-evaluated checkAllECDSASigsFull run on secp192r1 in which CheckNonceMSB writes DISCRETE_LOG = "1", '
             'wf_nonempty_oracles (RSA WF with LLL rows, candidate lists and table entries that the run consumes).')
-_add('C17', 'EC single checks (Props/C17Ec.lean, 14 theorems; review finding F12): CheckValidECKey / CheckWeakCurve verdicts are functions of the key (checkValidECKey_local, checkWeakCurve_local, end to end checkAllEC_individual_entries_local). CheckWeakECPrivateKey is NOT key-local (weakKey_verdict_depends_on_batch: kernel witness; real run: known finding D22); proved instead: soundness whatever the neighbours (weakKey_sound_any_batch) and the documented families are found in every batch from every reachable state (weakKey_guaranteed_any_context). '
+_add('C17', 'EC single checks (Props/C17Ec.lean, 14 theorems; review finding F12): CheckValidECKey / CheckWeakCurve verdicts are functions of the key (checkValidECKey_local, checkWeakCurve_local, end to end checkAllEC_individual_entries_local). CheckWeakECPrivateKey is NOT key-local (weakKey_verdict_depends_on_batch: kernel witness; real run: known finding D22); proved instead: soundness whatever the neighbours (weakKey_sound_any_batch) and the documented families are found in every batch from every reachable state (weakKey_guaranteed_any_context for batches whose keys on known curves are on the curve; C10Any.checkWeakECPrivateKey_every_batch for arbitrary neighbours). The kernel witness of non-locality is on the 40-bit toy curve with bound 16; the real-code replay (D22) uses the literal 2^32. '
             'CheckECKeySmallDifference: the boolean verdicts are exactly characterised (smallDiff_flag_iff: flagged iff another key on the same curve differs by k*G with 0 < |k| < V, V the table range) and invariant under permutation, duplication and healthy addition (smallDiff_flags_perm, smallDiff_flags_same_set, smallDiff_add_healthy; keys on-curve and reduced, SDHyp); the RECORDED relation is order-dependent (last hit wins: smallDiff_evidence_depends_on_order, reproduced on the real code) and earlier work can only add flags (smallDiff_verdict_depends_on_history). '
             'dl_history_monotone covers BatchDL logs in [0,n) of reduced on-curve points only; single_check_alone_eq_batch is the bookkeeping half and assumes a per-artefact verdict; checkAllRSA_single_independent assumes equal singleton state (orc.toRsaGlobals). KNOWN FINDING D22 (C17, recorded, patch fixes/D22-extendedbatchdl-range.diff proposed, not applied): CheckWeakECPrivateKey flags a key whose private key lies just beyond the documented range (e.g. d = 2^32 + 2000000 on secp256r1) in a batch of 9 keys but not alone — the table size, hence the range covered by luck, grows with the batch.')
 
